@@ -117,6 +117,35 @@ class Client(object):
         self.sock.sendall(rec)
         self.hs += msg
 
+    def read_server_finished(self):
+        """Reads [ChangeCipherSpec] and the protected Finished; True when its verify_data is the PRF value of the standard."""
+        rec = read_record(self.sock)
+        if rec is None or rec[0] != 20:
+            self.log.append('no ChangeCipherSpec from the server')
+            return False
+        rec = read_record(self.sock)
+        if rec is None:
+            return False
+        self.sseq = 0
+        got = RT.cbc_unprotect(self.s_mac, self.s_key, self.sseq.to_bytes(8, 'big'), rec)
+        self.sseq += 1
+        if got is None or got[0] != 22 or got[2][0] != 20:
+            self.log.append('server Finished does not unprotect under the independently derived keys')
+            return False
+        want = prf(self.master, b'server finished', H(self.hs), 12)
+        self.hs += got[2]
+        return got[2][4:] == want
+
+    def read_app_data(self):
+        rec = read_record(self.sock)
+        if rec is None:
+            return None
+        got = RT.cbc_unprotect(self.s_mac, self.s_key, self.sseq.to_bytes(8, 'big'), rec)
+        self.sseq += 1
+        if got is None or got[0] != 23:
+            return None
+        return got[2]
+
     def app_data(self, data):
         rec = RT.cbc_protect(self.c_mac, self.c_key, self.cseq.to_bytes(8, 'big'), 23, self.version, data, self.rng.randbytes(16))
         self.cseq += 1
